@@ -7,6 +7,7 @@ import (
 	"go/constant"
 	"go/types"
 	"strconv"
+	"os"
 	"strings"
 
 	"golang.org/x/tools/go/ssa"
@@ -309,7 +310,17 @@ func (e *SpecEnv) ident(name string) Val {
 		return v
 	}
 	if e.f != nil {
-		if v, ok := e.f.lookupName(name, e.at, e.atI); ok {
+		// variables that live in memory are read in the state this expression is evaluated in
+		saved := e.f.entrySt
+		if e.cur != nil {
+			e.f.entrySt = e.cur
+		}
+		v, ok := e.f.lookupName(name, e.at, e.atI)
+		e.f.entrySt = saved
+		if ok {
+			if os.Getenv("GOVC_DEBUG_NAME") == name {
+				fmt.Fprintf(os.Stderr, "DEBUG ident %s at=%v -> K=%d T=%s cur.Cell.bool=%s\n", name, e.at, v.K, v.T.S, e.cur.H["Cell.bool"].S)
+			}
 			return v
 		}
 	}
@@ -850,8 +861,8 @@ func (e *SpecEnv) call(n SCall) Val {
 		if sv.K != KSlice {
 			e.fail("inSlice() needs a slice")
 		}
-		if kindOf(sv.Typ.Underlying().(*types.Slice).Elem()) != KPtr {
-			e.fail("inSlice() needs a slice of pointers")
+		if k := kindOf(sv.Typ.Underlying().(*types.Slice).Elem()); k != KPtr && k != KFunc {
+			e.fail("inSlice() needs a slice of pointers or function values")
 		}
 		return Val{K: KBool, T: Select(vc.sliceSet(e.cur, sv), e.term(xv))}
 	case "offset", "arr":
